@@ -29,7 +29,7 @@ BUDGET = {
 }
 TERMINALS = ['value', 'exception', 'cancel']
 CT_FNS = ['value', 'raise', 'gate-value', 'gate-raise', 'raise-cancelled', 'gate-raise-cancelled', 'raise-invalid', 'gate-raise-invalid']
-ADAPTERS = ['unwrap', 'plum2kiwi', 'rpc']
+ADAPTERS = ['unwrap', 'plum2kiwi', 'rpc', 'convert', 'convert-async']
 
 
 def enumerate_cases(tier, scope):
@@ -118,6 +118,17 @@ def _run_chain(case, v):
             elif adapter == 'plum2kiwi':
                 levels = [loop.create_future() for _ in range(depth)]
                 adapted = futures.unwrap_kiwi_future(communications.plum_to_kiwi_future(levels[0]))
+            elif adapter in ('convert', 'convert-async'):
+                # a (sync or async) subscriber behind convert_to_comm / LoopCommunicator that answers with a loop future
+                levels = [loop.create_future() for _ in range(depth)]
+                if adapter == 'convert':
+                    def subscriber(_comm, _msg):
+                        return levels[0]
+                else:
+                    async def subscriber(_comm, _msg):
+                        await asyncio.sleep(0)
+                        return levels[0]
+                adapted = futures.unwrap_kiwi_future(communications.convert_to_comm(subscriber, loop)(None, 'msg'))
             else:
                 levels = [loop.create_future() for _ in range(depth)]
                 proc = Process(pid=1, loop=loop)
